@@ -43,11 +43,24 @@ class Prover:
 
     def check(self, conds, label="", want_model=True):
         """sat / unsat / unknown of the conjunction `conds`."""
-        s = z3.Solver()
-        s.set("timeout", self.timeout_ms)
-        s.add(*conds)
+        # portfolio: default solver (short), nlsat tactic (complete for QF_NRA, fast on polynomial identities with
+        # divisions where the default pipeline stalls), default solver (full budget)
         t0 = time.time()
-        r = str(s.check())
+        budget = self.timeout_ms
+        r, s = "unknown", None
+        for mk, tmo in ((z3.Solver, min(3000, budget)), (lambda: z3.Tactic("qfnra-nlsat").solver(), budget // 2),
+                        (z3.Solver, budget)):
+            s = mk()
+            s.set("timeout", int(max(500, tmo)))
+            s.add(*conds)
+            try:
+                r = str(s.check())
+            except z3.Z3Exception:
+                r = "unknown"
+            if r in ("sat", "unsat"):
+                break
+            if (time.time() - t0) * 1000 > budget:
+                break
         dt = time.time() - t0
         self.queries += 1
         self.secs += dt
